@@ -487,6 +487,10 @@ class AlBlFunctions(object):
         -------
         a_l, b_l : numpy.ndarray
         """
+        # These formulas are for the exp(+i omega t) time convention, in
+        # which an absorbing index is n - ik. HoloPy (like Bohren and
+        # Huffman) writes an absorbing index as n + ik.
+        index_ratio = np.conj(index_ratio)
         psi_nx = AlBlFunctions.riccati_psin(
             l, index_ratio * size_parameter)
         dpsi_nx = AlBlFunctions.riccati_psin(
